@@ -210,11 +210,12 @@ def mc_and_replay(rep, kinds, maxlen, seed, sample=None, timeout=3000):
                 raise RuntimeError("spec's Python tree differs from the ast module: " + repr(case)[:400])
             rep.violation(sig, case)
         if key is not None:
-            names.setdefault(key[0], set()).add(key[1])
+            names.setdefault(key[0], set()).add((key[1], bool(c["pow_issue"])))
     # different calls are different terms
     for nm, asts in names.items():
-        if len(asts) > 1:
-            rep.violation({"clause": "different_expressions_share_a_term_name", "site": "LazyOperator.__str__", "needs_parens": True, "pow_issue": False}, {"name": nm, "n_expressions": len(asts)})
+        if len({a for a, _ in asts}) > 1:
+            # two sources that formulae evaluates alike because of the ** rule share a name: that is the pow class
+            rep.violation({"clause": "different_expressions_share_a_term_name", "site": "LazyOperator.__str__", "needs_parens": True, "pow_issue": any(p for _, p in asts)}, {"name": nm, "n_expressions": len(asts)})
     for c in cases[:: max(1, len(cases) // 3)][:3]:
         rep.sample({"kind": "S->C argument expression", "tokens": c["ts"], "python_tree": c["py_tree"], "pow_issue": c["pow_issue"]})
 
